@@ -30,6 +30,9 @@ type C16Plan struct {
 	Input    []byte    `json:"input"` // base64 in JSON
 	Read     ReadPlan  `json:"read"`
 	Only     *C16Fault `json:"only,omitempty"`
+	// Like restricts the enumeration to faults of the same kind as this one (used while
+	// minimising: indices shift when the input shrinks, the kind of fault does not).
+	Like *C16Fault `json:"like,omitempty"`
 }
 
 func genC16(seed uint64, idx int, tier string) interface{} {
@@ -161,6 +164,7 @@ func runC16(planJSON []byte) (*RunResult, error) {
 	viol := func(f C16Fault, oracle, site, detail string, obs, exp interface{}) {
 		cp := pl
 		cp.Only = &f
+		cp.Like = nil
 		res.Violations = append(res.Violations, Violation{Property: "C16", Oracle: oracle, Site: site, Detail: detail,
 			Plan: mustJSON(cp), Observed: obs, Expected: exp})
 	}
@@ -314,6 +318,15 @@ func runC16(planJSON []byte) (*RunResult, error) {
 		return res, nil
 	}
 
+	likeW := func(wk string, kind string) bool {
+		if pl.Like == nil {
+			return true
+		}
+		return pl.Like.W != nil && pl.Like.R == nil && pl.Like.Writer == wk && pl.Like.W.Kind == kind
+	}
+	likeR := pl.Like == nil || (pl.Like.R != nil && pl.Like.W == nil)
+	likeC := pl.Like == nil || (pl.Like.R != nil && pl.Like.W != nil)
+
 	// ---- writer faults: every index (all when w<=64) x every kind x both writer kinds ----
 	for _, wk := range []string{"sw", "plain"} {
 		ref := ff[wk]
@@ -329,7 +342,9 @@ func runC16(planJSON []byte) (*RunResult, error) {
 			}
 			for i := range kinds {
 				wf := kinds[i]
-				checkWriterFault(C16Fault{Writer: wk, W: &wf}, ref.Accepted)
+				if likeW(wk, wf.Kind) {
+					checkWriterFault(C16Fault{Writer: wk, W: &wf}, ref.Accepted)
+				}
 			}
 		}
 	}
@@ -350,7 +365,7 @@ func runC16(planJSON []byte) (*RunResult, error) {
 	}
 	var fired []rfRef
 	for _, j := range offs {
-		if j > n {
+		if j > n || !(likeR || likeC) {
 			continue
 		}
 		for _, wd := range []bool{false, true} {
@@ -371,7 +386,7 @@ func runC16(planJSON []byte) (*RunResult, error) {
 
 	// ---- combined: source fails at j while destination fails at k ----
 	for _, fr := range fired {
-		if fr.ex.Calls == 0 {
+		if fr.ex.Calls == 0 || !likeC {
 			continue
 		}
 		for i := 0; i < 2; i++ {
@@ -401,8 +416,10 @@ func shrinkC16(planJSON []byte, v Violation, fails func([]byte) *Violation, budg
 	var pl C16Plan
 	json.Unmarshal(planJSON, &pl)
 	best := planJSON
+	like := pl.Only
 	try := func(c C16Plan) bool {
 		c.Only = nil
+		c.Like = like
 		if got := fails(mustJSON(c)); got != nil {
 			best = got.Plan
 			return true
